@@ -542,7 +542,7 @@ func install(vm *ds.Context, exts []Ext, hk Hooks, r *recorder, hm handlerMode) 
 // framework consulted the custom syntaxes (as seen by the logging parser, which
 // is registered first and therefore sees every consultation).
 func (r *recorder) acted(res []*regexp.Regexp) bool {
-	if r.streamActs > 0 || len(r.calls) > 0 {
+	if r.streamActs > 0 {
 		return true
 	}
 	seen := map[string]bool{}
